@@ -1100,7 +1100,7 @@ fn scenario(r: &mut Rng, k: usize, big: bool, idx: usize) -> Vec<String> {
     let bufs = if big { vec![4096] } else { gen_bufs(r) };
     let n = gen_len(r, big);
     let (op, items): (&str, Vec<Item>) = match writer {
-        0 => ("build", vec![Item::N(gen_spec(r, 'b', &cfg, 0, n))]),
+        0 => ("build", vec![Item::N(if !big && r.chance(1, 5) { gen_other_kind(r, 0) } else { gen_spec(r, 'b', &cfg, 0, n) })]),
         1 => ("wfile", vec![Item::N(gen_spec(r, 'w', &cfg, 0, n))]),
         2 => {
             let cnt = if big { 1 } else { r.range(0, 3) as usize };
